@@ -4,7 +4,7 @@
    the bempp-cl sources on every run. *)
 From Coq Require Import Reals QArith List Arith.
 From BV Require Import Bary.Syms Bary.Model Bary.RwgModel Bary.Tables Bary.RwgReal Bary.DualModel Bary.DualProofs.
-From BV Require Import Bary.FindingP1 Bary.FindingDual1 Bary.FindingDual0.
+From BV Require Import Quad.Rules Quad.Exactness Bary.Mass.
 From BVgen Require Import BaryTables.
 Import ListNotations.
 Open Scope Q_scope.
@@ -22,6 +22,7 @@ Theorem C10_bary_subtriangles :
 Proof. exact bary_subtriangles. Qed.
 Print Assumptions C10_bary_subtriangles.
 
+From BV Require Import Bary.FindingP1.
 (* ---- P1 ------------------------------------------------------------------------------------------------------
    FINDING on the unchanged tree: the shipped table is the right table shifted by one sub-triangle.
    After the repair docs/fixes/c10_p1_bary_table.diff the two theorems marked (*finding*) stop compiling and are
@@ -116,6 +117,23 @@ Theorem C10_snc_table_pointwise :
 Proof. exact (snc_table_pointwise snc_coeffs snc_entry). Qed.
 Print Assumptions C10_snc_table_pointwise.
 
+(* ---- mixed mass matrices, partial: on every barycentric element the triangle rule of any order 2..20 (default 4)
+   gives the local mass matrices of P1xP1 (1/12, 1/24), P1xP0 (1/6), P0xP0 (1/2) and every monomial of degree <= 2
+   (products of two RT0 fields, component-wise) to 1e-14 on the exact values of the shipped doubles.
+   partial: that the assembled matrix is T_dual^T M_bary T_primal is the sparse congruence theorem of C04/C13
+   (AssemblyA/SparseCongruence.v), and that the barycentric representations are the same functions is
+   C10_*_pointwise above; the composition of the three is not stated as one theorem. *)
+Theorem C10_mixed_mass_exact_partial :
+  forall order : Z, (2 <= order <= 20)%Z ->
+    (exists r, tri_ruleQ order = Some r /\
+       (forall a b, (a < 3)%nat -> (b < 3)%nat ->
+          near (quad r (fun p => p1_shape a p * p1_shape b p)) (mass_exact a b) = true) /\
+       (forall a, (a < 3)%nat -> near (quad r (fun p => p1_shape a p)) (1 # 6) = true) /\
+       near (quad r (fun _ => 1)) (1 # 2) = true) /\
+    (forall a b, (a + b <= 2)%nat -> exists r, tri_rule order = Some r /\ tri_ok r a b = true).
+Proof. exact (fun order H => conj (local_mass_exact order H) (monomials_deg2 order H)). Qed.
+Print Assumptions C10_mixed_mass_exact_partial.
+
 (* ---- dual spaces: the literal index lists address the nodes they are documented to *)
 Theorem C10_dual_index_lists :
   forall k, (k < 3)%nat ->
@@ -144,6 +162,7 @@ Proof.
 Qed.
 Print Assumptions C10_dual0_cells.
 
+From BV Require Import Bary.FindingDual0.
 (* FINDING on the unchanged tree: with truncate_at_segment_edge=True the guard indexes the barycentric support array
    with a coarse face number and drops the entries of faces whose index/6 is not in the segment *)
 Theorem C10_dual0_truncate_refuted : (*finding*)
@@ -168,6 +187,7 @@ Theorem C10_dual_nodal_values_partial :
 Proof. exact dual1_entries_sound. Qed.
 Print Assumptions C10_dual_nodal_values_partial.
 
+From BV Require Import Bary.FindingDual1.
 (* FINDING on the unchanged tree: the "1 at the barycentre" list of dual1 names the six edge-midpoint dofs *)
 Theorem C10_dual1_centre_refuted : (*finding*)
   dual1_centre_status = false /\ dual1_centre_is_midpoints = true /\
